@@ -98,6 +98,8 @@ def main(tier, seed, only=None):
     work._load_contracts()
     leaves = [k for k in common.leaves_for(PROP)]
     items = [('props.kernel_common:heap_item', dict(qual=f, timeout_s=30 if tier == 'quick' else 120)) for f in FUNCS]
+    # the pending list: every prepare() (Wire and BidirWire) appends the wire to Wire.prepared -- the list Wire.settleAll drains -- and settle() applies `next`
+    # (the Wire / BidirWire method contracts carry props C06 and C05, so leaves_for(C05) includes them)
     items += common.leaf_items(leaves, tier, seed) + [('props.kernel_common:clock_methods_scan', {})]
     items += [('props.C05:permutations', dict(seed=seed * 10 + k, n=4 if tier == 'quick' else 30)) for k in range(4)]
     items = common.filter_only(items, only)
